@@ -179,7 +179,19 @@ def execute(check, tier):
     with ctx.Pool(NPROC, initializer=_init_worker, initargs=(modname, tier, sd), maxtasksperchild=getattr(check, "maxtasksperchild", None)) as pool:
         done = 0
         last = time.time()
-        for idx, r, err in pool.imap_unordered(_run_task, list(enumerate(tasks)), chunksize=getattr(check, "chunksize", 1)):
+        it = pool.imap_unordered(_run_task, list(enumerate(tasks)), chunksize=getattr(check, "chunksize", 1))
+        stall = getattr(check, "stall_timeout", 1500)
+        while True:
+            try:
+                idx, r, err = it.next(timeout=stall)
+            except StopIteration:
+                break
+            except mp.TimeoutError:
+                # no task finished for `stall` seconds: something inside the code under test does not return
+                print("HARNESS-ERROR property=%s no task completed within %d s (%d/%d done): the code under test hangs" % (
+                    check.id, stall, done, len(tasks)))
+                pool.terminate()
+                return 2
             done += 1
             if err:
                 errors.append(err)
